@@ -516,6 +516,8 @@ func (c *fsClient) isStackObj(t *Term) bool {
 	return true
 }
 
+func (c *fsClient) OnBackEdge(x *Exec, st *State, fr *Frame, cur *Term) {}
+
 // OnLoopExit discharges tokens that every iteration drawing them released.
 func (c *fsClient) OnLoopExit(x *Exec, st *State, all *Term, backs []*State, phiLists []*Term) {
 	g := c.g(st)
@@ -671,6 +673,9 @@ func (c *fsClient) Call(x *Exec, st *State, fr *Frame, site ssa.CallInstruction,
 		p := mk("tmppath", fr.ctx+"/"+siteID(fr, site), nil, x.curMark())
 		g.tmps[gk(p)] = p
 		g.fileOf[gk(h)] = p
+		if g.flag("compactFirst") != nil {
+			g.setFlag("mergeStarted", tTrue)
+		}
 		if !c.isDir(st, args[0]) {
 			c.violate(st, "PRE-COMMIT-INVISIBLE", role+" / TempFile outside the stack directory", pos, "temporary file is not created in the stack directory")
 		}
@@ -1160,6 +1165,9 @@ func (c *fsClient) commitList(x *Exec, st *State, fr *Frame, site ssa.CallInstru
 	}
 	g.setFlag("listRenamed", tTrue)
 	g.setFlag("readAfterCommit", nil)
+	if g.flag("compactFirst") != nil {
+		g.setFlag("compactCommitted", tTrue)
+	}
 	if strings.Contains(role, "Addition") {
 		g.setFlag("commitRenamed", tTrue)
 	}
